@@ -57,6 +57,7 @@ GATESETS = {
     'constsq': ['cx', 'h', 't'],
     'nosq': ['cx'],
     'rzonly': ['cx', 'rz'], 'rxonly': ['cx', 'rx'], 'u1rx': ['cx', 'u1', 'rx'], 'u1sx': ['cx', 'u1', 'sx'],
+    'rzrx': ['cx', 'rz', 'rx'],
     'rzry': ['cx', 'rz', 'ry'], 'h1like': ['cx', 'rz', 'u1qpi', 'u1qpi2'],
 }
 
